@@ -51,7 +51,7 @@ def repo_hash():
             h.update(fh.read())
         h.update(b"\0")
     # the framework itself is part of the key, so that editing it rebuilds
-    for pat in ("go/cmd/*/*.go", "ocaml/driver.ml", "coq/_CoqProject", "coq/*/*.v"):
+    for pat in ("go/cmd/*/*.go", "ocaml/driver.ml", "ocaml/drivermain.ml", "ocaml/genhook.ml", "coq/_CoqProject", "coq/*/*.v"):
         for f in sorted(glob.glob(os.path.join(ROOT, pat))):
             if "/Gen/" in f:
                 continue
@@ -69,6 +69,7 @@ class Build:
         self.harness_race = os.path.join(d, "harness_race")
         self.harness_checkptr = os.path.join(d, "harness_checkptr")
         self.driver = os.path.join(d, "driver")
+        self.gendriver = os.path.join(d, "gendriver")   # may not exist (see ensure_build)
 
 def _coq_failed_file(log):
     """the first file that failed to compile (with make -k there may be several: see coq_failed_all)"""
@@ -139,10 +140,19 @@ def ensure_build(need386=False, need_race=False, need_checkptr=False, verbose=Tr
                 list(ex.map(_pa, sorted(os.path.relpath(x, COQ) for x in glob.glob(os.path.join(COQ, "Properties", "C*.v")))))
             # extraction + driver (the model files compile even when a proof breaks)
             oc = os.path.join(ROOT, "ocaml")
-            rc, out = sh("coqc -Q ../coq GoArt ../coq/Extract/Extract.v 2>&1 && ocamlfind ocamlopt -w -a model.mli model.ml driver.ml -o %s 2>&1"
+            rc, out = sh("coqc -Q ../coq GoArt ../coq/Extract/Extract.v 2>&1 && ocamlfind ocamlopt -w -a model.mli model.ml driver.ml drivermain.ml -o %s 2>&1"
                          % os.path.join(d, "driver"), 900, oc)
             status["driver_ok"] = (rc == 0)
             status["log"]["driver"] = out[-3000:]
+            # optional: the same driver with the REGENERATED program beside the model (Extract/ExtractGen.v imports the
+            # proof files that define the run drivers, so it exists only when the whole development compiles)
+            og = os.path.join(oc, "gen")
+            os.makedirs(og, exist_ok=True)
+            rc, out = sh("coqc -Q ../../coq GoArt ../../coq/Extract/ExtractGen.v 2>&1 && sed 's/^open Model$/open Genmodel/' ../driver.ml > driver.ml && "
+                         "cp ../genhook.ml ../drivermain.ml . && ocamlfind ocamlopt -w -a genmodel.mli genmodel.ml driver.ml genhook.ml drivermain.ml -o %s 2>&1"
+                         % os.path.join(d, "gendriver"), 900, og)
+            status["gendriver_ok"] = (rc == 0)
+            status["log"]["gendriver"] = out[-1500:]
             status["build_s"] = round(time.time() - t0, 1)
             json.dump(status, open(stf, "w"), indent=1)
             # keep the three most recent build directories
@@ -315,14 +325,14 @@ def print_assumptions(prop_file, build=None):
 def read_cmds(path):
     return [l for l in open(path).read().split("\n") if l.strip() and not l.startswith("#")]
 
-def run_pair(build, cmds_path, opts=(), harness=None, want_model=True, timeout=900, coq_terms=False):
+def run_pair(build, cmds_path, opts=(), harness=None, want_model=True, timeout=900, coq_terms=False, driver=None):
     """run implementation (+oracle, +side checks) and the extracted model on one command file"""
     base = cmds_path[:-5]
     h = harness or build.harness
     rc, out = sh([h, "exec", *opts, cmds_path, base + ".out", base + ".exp", base + ".side"], timeout)
     res = {"cmds": cmds_path, "impl_rc": rc, "impl_log": out[-2000:]}
     if want_model:
-        rc2, out2 = sh("ulimit -v 8000000; %s %s %s %s" % (build.driver, cmds_path, base + ".mod", (base + "_cases.v") if coq_terms else ""), timeout)
+        rc2, out2 = sh("ulimit -v 8000000; %s %s %s %s" % (driver or build.driver, cmds_path, base + ".mod", (base + "_cases.v") if coq_terms else ""), timeout)
         res["model_rc"] = rc2
         res["model_log"] = out2[-2000:]
     return res
